@@ -1,6 +1,7 @@
 """C18: Node.is_equal decides structural equality of whole trees."""
 import z3
 from pyvc.smt import Val, I, B
+from pyvc import smt
 from pyvc.task import Contract
 from .prelude import *
 
@@ -20,14 +21,14 @@ def eq_def(s, a, b):
         *[s.f(f, a) == s.f(f, b) for f in SCALAR_FIELDS],
         *[s.dmap(s.fr(f, a)) == s.dmap(s.fr(f, b)) for f in DICT_FIELDS],
         s.nkids(a) == s.nkids(b),
-        z3.ForAll([i], z3.Implies(z3.And(0 <= i, i < s.nkids(a)), EQ(s.kid(a, i), s.kid(b, i))),
+        smt.FA([i], z3.Implies(z3.And(0 <= i, i < s.nkids(a)), EQ(s.kid(a, i), s.kid(b, i))),
                   patterns=[EQ(s.kid(a, i), s.kid(b, i))]),
     )
 
 
 def pd_def(s, a, b):
     i = z3.Int("pd_i")
-    return z3.And(a != b, z3.ForAll([i], z3.Implies(z3.And(0 <= i, i < s.nkids(a), i < s.nkids(b)),
+    return z3.And(a != b, smt.FA([i], z3.Implies(z3.And(0 <= i, i < s.nkids(a), i < s.nkids(b)),
                                                      PD(s.kid(a, i), s.kid(b, i))),
                                     patterns=[PD(s.kid(a, i), s.kid(b, i))]))
 
@@ -37,11 +38,11 @@ def lcard(s, d1, d2):
     have the same key set.  Stated as an axiom instance here; proved in Lean (lemmas/LCard.lean)."""
     k = z3.Const("lc_k", Val)
     m1, m2 = s.dmap(d1), s.dmap(d2)
-    sub = z3.ForAll([k], z3.Implies(m1[k] != smt.absent, m2[k] != smt.absent), patterns=[m1[k]])
+    sub = smt.FA([k], z3.Implies(m1[k] != smt.absent, m2[k] != smt.absent), patterns=[m1[k]])
     return z3.And(
         z3.Implies(sub, s.dn(d1) <= s.dn(d2)),
         z3.Implies(z3.And(s.dn(d1) == s.dn(d2), sub),
-                   z3.ForAll([k], z3.Implies(m2[k] != smt.absent, m1[k] != smt.absent), patterns=[m2[k]])))
+                   smt.FA([k], z3.Implies(m2[k] != smt.absent, m1[k] != smt.absent), patterns=[m2[k]])))
 
 
 def requires(s, node1, node2):
@@ -71,20 +72,20 @@ def dict_loop_inv(field):
         j = z3.Int("dl_j")
         d1, d2 = s0.fr(field, v.node1), s0.fr(field, v.node2)
         m1, m2, k1 = s0.dmap(d1), s0.dmap(d2), s0.dkey(d1)
-        return z3.ForAll([j], z3.Implies(z3.And(0 <= j, j < v._k), m2[k1[j]] == m1[k1[j]]), patterns=[k1[j]])
+        return smt.FA([j], z3.Implies(z3.And(0 <= j, j < v._k), m2[k1[j]] == m1[k1[j]]), patterns=[k1[j]])
     return inv
 
 
 def child_loop_inv(s0, s, v):
     j = z3.Int("cl_j")
     return z3.And(v._k <= s0.nkids(v.node1),
-                  z3.ForAll([j], z3.Implies(z3.And(0 <= j, j < v._k), EQ(s0.kid(v.node1, j), s0.kid(v.node2, j))),
+                  smt.FA([j], z3.Implies(z3.And(0 <= j, j < v._k), EQ(s0.kid(v.node1, j), s0.kid(v.node2, j))),
                             patterns=[EQ(s0.kid(v.node1, j), s0.kid(v.node2, j))]))
 
 
 def install(w):
     con = Contract(Q, params={"node1": "Node", "node2": "Node"}, requires=requires, axioms=axioms, ensures=ensures, result_ty="bool",
-                   decreases=lambda s, node1, node2: H(node1), assumptions=("L-card", "T-unfold(Eq,PD)"))
+                   decreases=lambda s, node1, node2: H(s, node1), assumptions=("L-card", "T-unfold(Eq,PD)"))
     w.add(con)
     w.loop(Q, 1, inv=dict_loop_inv("_attributes"))
     w.loop(Q, 2, inv=dict_loop_inv("_nsmap"))
